@@ -9,6 +9,7 @@ class Unsupported(Exception):
 
 
 WS_CHARS = None
+CLASS_ID_HOOK = [None]  # set by the executor: qualified class name -> class id
 CLOSURES = []  # closure table: heap fields of sort Func hold 1-based indices
 DEFAULT_AXIOMS = []
 DEFAULT_AXIOMS_HAS_WS = [False]
@@ -188,6 +189,19 @@ def coerce(v: Val, s: Sort) -> Val:
             return v
         if isinstance(v, VOpt) and isinstance(v.sort.inner, TRefS):
             return VRef(z3.If(v.sort.is_none(v.t), 0, v.sort.the(v.t)), s.cls)
+    if isinstance(s, TUnionRec):
+        if isinstance(v, VRec) and v.sort == s:
+            return v
+        if isinstance(v, VRec) and v.sort.cls in s.members:
+            ts = []
+            for f, fs in s.fields:
+                if f == "tag":
+                    ts.append(z3.IntVal(CLASS_ID_HOOK[0](v.sort.cls)))
+                elif f == s.member_field(v.sort.cls):
+                    ts.append(v.t)
+                else:
+                    ts.append(default_term(fs))
+            return VRec(s.mk(*ts), s)
     if isinstance(s, TUnionS):
         if isinstance(v, VUnion):
             return v
@@ -400,6 +414,12 @@ def val_eq(a: Val, b: Val):
         return a.t == b.t
     if isinstance(a, (VList, VTuple)) and isinstance(b, (VList, VTuple)):
         return list_eq(a, b)
+    if isinstance(a, VRec) and isinstance(b, VRec) and isinstance(a.sort, TUnionRec) != isinstance(b.sort, TUnionRec):
+        if not isinstance(a.sort, TUnionRec):
+            a, b = b, a
+        if b.sort.cls not in a.sort.members:
+            return z3.BoolVal(False)
+        return z3.And(a.sort.get(a.t, "tag") == CLASS_ID_HOOK[0](b.sort.cls), a.sort.get(a.t, a.sort.member_field(b.sort.cls)) == b.t)
     if isinstance(a, VRec) and isinstance(b, VRec):
         if a.sort != b.sort:
             return z3.BoolVal(False)
